@@ -87,7 +87,7 @@ def read_calls(db, r, ids, n, res):
                 elif k == 2:
                     calls.append("features_of_type"); list(db.features_of_type(r.choice(["exon", "gene", "mRNA"])))
                 elif k == 3:
-                    calls.append("children"); list(db.children(x, level=r.choice([None, 1, 2])))
+                    calls.append("children"); list(db.children(x, level=r.choice([None, 1, 2, 3, 4])))
                 elif k == 4:
                     calls.append("parents"); list(db.parents(x))
                 elif k == 5:
